@@ -10,6 +10,7 @@ import (
 	"path/filepath"
 	"sort"
 	"strings"
+	"sync"
 	"time"
 
 	"vsched"
@@ -22,6 +23,7 @@ import (
 type Log struct {
 	cell uint64
 	Ev   []Ev
+	mu   sync.Mutex // only used by the free-running pass (no controlled execution active)
 }
 
 type Ev struct {
@@ -32,6 +34,10 @@ type Ev struct {
 
 //go:norace
 func (l *Log) Add(kind, name, err string) {
+	if !vsched.Active() {
+		l.mu.Lock()
+		defer l.mu.Unlock()
+	}
 	if len(l.Ev) == cap(l.Ev) {
 		// grow manually (append's growslice would be visible to the race detector)
 		n := make([]Ev, len(l.Ev), 2*cap(l.Ev)+16)
